@@ -14,7 +14,12 @@ degenerate-chord classifier additionally requires that the proved per-shape bloc
 Router options (seeded change C04-6, DESIGN 9.16; checks/avoid_opts.py): configs opt-* run the directed family "unblock" (the obstacle blocking a connector's own
 src-dst line is deleted / moved away / shrunk, blocked again, freed again; bystander obstacles) and move-heavy histories under the public Router flags
 InvisibilityGrph / UseLeesAlgorithm (all combinations); the fresh router of every step is built with the same flags.  RubberBandRouting is left out: it keeps
-routes that have a better alternative by design (router.cpp:1819-1824)."""
+routes that have a better alternative by design (router.cpp:1819-1824).
+Fourth round (DESIGN 9.20): shapeBufferDistance > 0 in histories (configs buf4-* / buf10-*, rectangles only: the routing polygon is exactly the rectangle grown by the buffer
+distance - checked against the harness's B lines - and every oracle is that of the scene of GROWN rectangles: validity, route_ok, fresh router, reference optimum; family "bufzone":
+a rectangle added / moved / grown so that only its buffer zone lies across a connector's current route; seeded change C06-8); dual-mode routers (harness mode 2 =
+PolyLineRouting|OrthogonalRouting) with the history op Y = ConnRef::setRoutingType on existing connectors, both directions (family "typeswitch" + generic histories with injected
+switches; each connector is compared with the fresh dual-mode router's connector of the same type, poly-line ones also with the reference optimum; seeded change C03-8)."""
 import os, json, hashlib
 from vlib import common as C
 from checks import avoid_lib as A
@@ -651,6 +656,10 @@ def run(tier):
         'shared family: several connectors with exactly coincident endpoints, endpoints also exactly on shape vertices (no other boundary points)',
         'generic stream rejects scenes with a degenerate chord between graph vertices (the known finding F-b has its own stream)',
         'orthogonal mode: incremental vs fresh router only (its optimum is C05\'s subject); polyline: also vs the reference router optimum',
+        'shapeBufferDistance > 0 (configs buf*): rectangles only; obstacles = routing polygons = rectangles grown by the buffer distance (tie: harness line B = Obstacle::routingPolygon() must equal '
+        'the grown rectangle); boxes of the GROWN rectangles separated by >= 1, endpoints outside them; the selective_reroute_not_flagged classifier is not applied there',
+        'dual-mode routers (mode 2): rectangles only, endpoints outside every box, segmentPenalty > 0 (documented precondition of orthogonal routing); a connector\'s cost is measured in its own routing type '
+        '(poly_cost / orth_cost) and compared with the fresh dual-mode router\'s connector of the same type; the queue model has no routing-type op (Y ops are dropped from its op list: they change no scene)',
         'pins, junctions, clusters, checkpoints are not exercised; router flags: InvisibilityGrph and UseLeesAlgorithm in all four combinations (fresh router under the '
         'same flags); RubberBandRouting is left out: by its own comments it keeps routes that may have a better alternative (router.cpp:1819-1824)']
     exe = A.harness(); drv = A.driver()
@@ -851,7 +860,10 @@ META = {
                 'or replaced by another shape, followed by a change that recomputes the endpoint\'s visibility), "shared" (several connectors with exactly coincident endpoints) '
                 'and "pocket" (unroutable, then routable: a connector end enclosed by 3-4 overlapping walls, then a wall deleted / moved away / shrunk / slid aside; transactions on and off, polyline and orthogonal); '
                 'router options: the public flags InvisibilityGrph / UseLeesAlgorithm in all four combinations (fresh router under the same flags) on the directed family "unblock" '
-                '(blocker of a connector\'s own src-dst line deleted / moved / shrunk / back / away again) and on move-heavy histories.',
+                '(blocker of a connector\'s own src-dst line deleted / moved / shrunk / back / away again) and on move-heavy histories; '
+                'shapeBufferDistance 4 / 10 on rectangle histories (generic, move-heavy, noop, addmove, only, and the directed family "bufzone": only the buffer zone of an added / moved / grown '
+                'rectangle lies across a current route), oracles on the routing polygons; dual-mode routers with routing-type switches of existing connectors (family "typeswitch", both directions, '
+                'alone / with endpoint moves / shape edits / double switch).',
         'design_ref': 'DESIGN.md 5.6'},
     'level_note': 'partial: the refinement theorem covers the whole scene, shapes and connector ends (queue_refines_sequential_full; pin-move '
                   'updates are proved for the generalised update function, the op log has no pin-move op); the clamped reflection estimate is proved a lower '
@@ -860,7 +872,9 @@ META = {
                   'UseLeesAlgorithm=false (pairwise visibility); RubberBandRouting is outside the property (keeps non-optimal routes by design). Known finding F-b (degenerate chord) has its own '
                   'stream and classifier (narrowed in round 3: only chords with fewer than two end-point touches, which the proved per-shape test does not block); '
                   'F-g (stale routes, fixed in /repo) is kept as corpus regression entries. The retry of connectors without a route (m_needs_reroute_flag) is not modelled: seen only through the pocket '
-                  'family, where steps without any obstacle-free path (reference router: NoPath) are compared with the fresh router\'s placeholder route only. Trusted: Coq kernel, extraction, '
+                  'family, where steps without any obstacle-free path (reference router: NoPath) are compared with the fresh router\'s placeholder route only. Buffer distance and routing-type switches (DESIGN 9.20) are NOT in the Coq queue model: '
+                  'the buffered histories use the model only for the un-grown scene, the grown rectangles are a Python-side transformation tied to routingPolygon() by exact comparison; setRoutingType is dropped from the model\'s op list. '
+                  'Trusted: Coq kernel, extraction, '
                   'drivers, the hand model\'s reading of router.cpp (validated against the implementation on every run).',
     'technique': 'Coq refinement proof of the action queue + three-way history correspondence (incremental / fresh router / extracted model)',
 }
